@@ -252,9 +252,9 @@ pub(super) fn derive_schema(input: TokenStream) -> syn::Result<TokenStream> {
                     ::ohkami::openapi::object()
                 })
             }
-            Fields::Unit => {/* empty */
+            Fields::Unit => {/* empty; serde writes a unit struct (or an untagged unit variant) as `null` */
                 Ok(quote! {
-                    ::ohkami::openapi::object()
+                    ::ohkami::openapi::object().nullable()
                 })
             }
 
